@@ -136,6 +136,21 @@ class ClassTable:
                         pass
 
 
+class HookArgs(list):
+    """The positional arguments handed to a contract (hook).  It IS the list of positional arguments (len, iteration, slicing, forwarding
+    to the real function are unchanged); only an index beyond its end is looked up among the keyword arguments by the name of that
+    parameter of the real function - so `args[2]` works whether the analysed code passed the third argument by position or by keyword."""
+
+    def __init__(self, args, params, kwargs):
+        super().__init__(args)
+        self._params, self._kwargs = params, kwargs
+
+    def __getitem__(self, i):
+        if isinstance(i, int) and i >= len(self) and i < len(self._params) and self._params[i] in self._kwargs:
+            return self._kwargs[self._params[i]]
+        return super().__getitem__(i)
+
+
 class Interp:
     MAX_DEPTH = 60
 
@@ -735,6 +750,18 @@ class Interp:
         raise Unsupported(f'setattr on {obj!r}.{name}')
 
     # ------------------------------------------------------------------ calls
+    @staticmethod
+    def _positional_for_hook(f, args: list, kwargs: dict):
+        """A contract (hook) of a repository function reads its arguments by POSITION; the analysed code may pass the same arguments by
+        keyword.  Arguments given by keyword are moved to their position in the function's own parameter list, as long as they extend the
+        positional ones without a gap (the remaining ones stay keywords); the keyword entries are kept as well, so a contract that reads
+        `kwargs.get(name, args[i])` sees the value either way."""
+        try:
+            params = [a.arg for a in f.node.args.posonlyargs + f.node.args.args]
+        except AttributeError:
+            return args, kwargs
+        return HookArgs(args, params, kwargs), kwargs
+
     def call(self, f, args: list, kwargs: dict):
         if isinstance(f, Bound):
             return self.call(f.func, [f.self_val] + list(args), kwargs)
@@ -743,7 +770,8 @@ class Interp:
         if isinstance(f, PyFunc):
             hook = self.hooks.get(f.fullname)
             if hook is not None:
-                return hook(self, f, list(args), dict(kwargs))
+                a2, k2 = self._positional_for_hook(f, list(args), dict(kwargs))
+                return hook(self, f, a2, k2)
             if f.is_async:
                 return CoroVal(f, list(args), dict(kwargs))
             return self.inline(f, args, kwargs)
